@@ -253,9 +253,14 @@ fn raw_exhaustive(ctx: &mut Ctx) {
     ctx.note("cov.raw_exhaustive_histories", format!("{} (all sequences of 1..={} ops over a {}-op alphabet)", total, depth, alphabet));
     let mut index = 0u64;
     for d in 1..=depth as u32 {
-        for code in 0..alphabet.pow(d) {
-            index += 1;
-            if !ctx.mine(index) { continue; }
+        let total_d = alphabet.pow(d);
+        let base = index;
+        index += total_d;
+        let n = ctx.nshards as u64;
+        let mut next = (ctx.shard as u64 + n - ((base + 1) % n)) % n;
+        while next < total_d {
+            let code = next;
+            next += n;
             if !ctx.begin_case() { continue; }
             let mut raw = RawVector::with_len(70, true);
             let mut m = vec![true; 70];
@@ -498,9 +503,14 @@ fn int_exhaustive(ctx: &mut Ctx) {
     let mut index = 0u64;
     for &w in widths.iter() {
         for d in 1..=depth as u32 {
-            for code in 0..alphabet.pow(d) {
-                index += 1;
-                if !ctx.mine(index) { continue; }
+            let total_d = alphabet.pow(d);
+            let base = index;
+            index += total_d;
+            let n = ctx.nshards as u64;
+            let mut next = (ctx.shard as u64 + n - ((base + 1) % n)) % n;
+            while next < total_d {
+                let code = next;
+                next += n;
                 if !ctx.begin_case() { continue; }
                 let mut v = IntVector::with_len(9, w, !0u64).unwrap();
                 let mut m = IntModel { width: w, items: vec![trunc(!0u64, w); 9] };
